@@ -200,7 +200,7 @@ ADDENDA = {
  'C17': ('The channel count used for interleaving is the decoded link\'s and is not stale across the packet fetch (R17.5, R17.6); '
          'the data return is at least one frame (R17.7) and every float-to-int conversion argument is within the range of int, i.e. '
          'samples are clipped before they are converted (R17.8, K4 floating intervals through the clip helper); the info that '
-         'supplies the channel count is indexed by the link counter only on a seekable handle (R17.9).', ''),
+         'supplies the channel count is indexed by the link counter only on a seekable handle (R17.9); the clip helper returns a bound only under guards that place the sample at or beyond that bound, so clipping is the identity inside the range (R17.10, exact linear domain).', ''),
  'C18': ('Decode scratch from the block arena is zeroed for every channel whatever the arena held (R18.6); a memset that follows an '
          'allocation of the same lvalue covers the allocated size (R18.7).', ''),
  'C19': ('The packet fetch reports end-of-file to the lap helpers only at a link boundary (R19.5) and vorbis_synthesis_lapout '
